@@ -37,3 +37,197 @@ Print Assumptions C03_snapshot_stable_multiset.
 
 (** * Non-vacuity: a run reaching three levels, compacting twice under a live snapshot *)
 
+
+(** * get, iterators and snapshots agree ([proofs/SnapIterProofs.v]) *)
+From RainVerif Require Import Params.
+From RainVerif.model Require Import Bytes Key Block Table TableSpec Version Lsm LsmSpec DbSpec Cursor.
+From RainVerif.proofs Require Import SnapIterProofs.
+From RainVerif.proofs Require GetProofs LsmProofs CursorProofs.
+Open Scope N_scope.
+
+(** the notions used in the statements, spelled out *)
+Example C03_map_sorted_def : forall p r,
+  GetProofs.map_sorted [] = True /\
+  GetProofs.map_sorted (p :: r)
+  = ((forall p', In p' r -> bytes_cmp (fst p) (fst p') = Lt) /\ GetProofs.map_sorted r).
+Proof. intros. split; reflexivity. Qed.
+
+Example C03_seek_obs_def : forall s q k,
+  seek_obs s q k = d_run (d_new (iter_children s) q) [ISeek k].
+Proof. reflexivity. Qed.
+
+(** T1 *)
+Theorem C03_contents_lookup :
+  forall (es : list entry) (q : N),
+    GetProofs.map_sorted (contents es q) /\ forall k, map_get k (contents es q) = visible es q k.
+Proof. exact contents_lookup. Qed.
+Print Assumptions C03_contents_lookup.
+
+Theorem C03_sorted_map_ext :
+  forall m1 m2 : list kv, GetProofs.map_sorted m1 -> GetProofs.map_sorted m2 ->
+    (forall k, map_get k m1 = map_get k m2) -> m1 = m2.
+Proof. exact sorted_map_ext. Qed.
+Print Assumptions C03_sorted_map_ext.
+
+Theorem C03_contents_ext :
+  forall (es es' : list entry) (q : N),
+    (forall k, visible es q k = visible es' q k) -> contents es q = contents es' q.
+Proof. exact contents_ext. Qed.
+Print Assumptions C03_contents_ext.
+
+(** T2: at the same snapshot, get and iteration always agree *)
+Theorem C03_get_iter_agree :
+  forall (s : lsm) (q : N) (k : bytes),
+    lsm_wf_b s = true ->
+    snd (seek_obs s q k) = true /\
+    match db_get_at s k q with
+    | Some v => fst (seek_obs s q k) = [OAt (k, v)]
+    | None => fst (seek_obs s q k) = [OInvalid]
+              \/ exists k' v', fst (seek_obs s q k) = [OAt (k', v')] /\ bytes_cmp k k' = Lt
+    end.
+Proof. exact get_iter_agree. Qed.
+Print Assumptions C03_get_iter_agree.
+
+Theorem C03_get_iter_agree_found :
+  forall (s : lsm) (q : N) (k v : bytes),
+    lsm_wf_b s = true ->
+    (fst (seek_obs s q k) = [OAt (k, v)] <-> db_get_at s k q = Some v).
+Proof. exact get_iter_agree_found. Qed.
+Print Assumptions C03_get_iter_agree_found.
+
+Theorem C03_get_iter_agree_absent :
+  forall (s : lsm) (q : N) (k : bytes),
+    lsm_wf_b s = true ->
+    ((fst (seek_obs s q k) = [OInvalid]
+      \/ exists k' v', fst (seek_obs s q k) = [OAt (k', v')] /\ bytes_cmp k k' = Lt)
+     <-> db_get_at s k q = None).
+Proof. exact get_iter_agree_absent. Qed.
+Print Assumptions C03_get_iter_agree_absent.
+
+(** T3: a full forward scan *)
+Theorem C03_scan_is_contents :
+  forall (s : lsm) (q : N),
+    lsm_wf_b s = true ->
+    d_run (d_new (iter_children s) q)
+          (IFirst :: repeat INext (length (contents (all_entries s) q)))
+    = (map OAt (contents (all_entries s) q) ++ [OInvalid], true).
+Proof. exact scan_is_contents. Qed.
+Print Assumptions C03_scan_is_contents.
+
+(** T4: an iterator sees exactly the state at its creation, forever *)
+Theorem C03_iterator_snapshot_stable :
+  forall mfs steps s q, lsm_wf_b s = true -> In q (l_snaps s) -> LsmProofs.run_adm mfs s steps ->
+    ~ In (SRelease q) steps ->
+    let s' := fold_left (lsm_step true true mfs) steps s in
+    forall ops, d_run (d_new (iter_children s') q) ops = d_run (d_new (iter_children s) q) ops.
+Proof. exact iterator_snapshot_stable. Qed.
+Print Assumptions C03_iterator_snapshot_stable.
+
+Theorem C03_iterator_snapshot_stable_multiset :
+  forall mfs steps s q, lsm_wf_b s = true -> LsmProofs.run_adm mfs s steps ->
+    (LsmProofs.releases q steps < count_occ N.eq_dec (l_snaps s) q)%nat ->
+    let s' := fold_left (lsm_step true true mfs) steps s in
+    forall ops, d_run (d_new (iter_children s') q) ops = d_run (d_new (iter_children s) q) ops.
+Proof. exact iterator_snapshot_stable_multiset. Qed.
+Print Assumptions C03_iterator_snapshot_stable_multiset.
+
+Theorem C03_contents_snapshot_stable :
+  forall mfs steps s q, lsm_wf_b s = true -> LsmProofs.run_adm mfs s steps ->
+    (LsmProofs.releases q steps < count_occ N.eq_dec (l_snaps s) q)%nat ->
+    let s' := fold_left (lsm_step true true mfs) steps s in
+    contents (all_entries s') q = contents (all_entries s) q.
+Proof. exact contents_snapshot_stable. Qed.
+Print Assumptions C03_contents_snapshot_stable.
+
+(** * Non-vacuity *)
+
+(** the three-level state of C01 / C04 ([GetProofs.ex_state]) at sequence 12: [d] was deleted at
+    sequence 9 (seek goes past the end), [b] is found by both, a key between [b] and [c] lands on
+    [c]; at sequence 8 the deletion is not visible yet *)
+Example C03_example_seek :
+  lsm_wf_b GetProofs.ex_state = true
+  /\ (db_get_at GetProofs.ex_state [98] 12 = Some [2; 6]
+      /\ seek_obs GetProofs.ex_state 12 [98] = ([OAt ([98], [2; 6])], true))
+  /\ (db_get_at GetProofs.ex_state [98; 0] 12 = None
+      /\ seek_obs GetProofs.ex_state 12 [98; 0] = ([OAt ([99], [3; 11])], true)
+      /\ bytes_cmp [98; 0] [99] = Lt)
+  /\ (db_get_at GetProofs.ex_state [100] 12 = None
+      /\ seek_obs GetProofs.ex_state 12 [100] = ([OInvalid], true))
+  /\ (db_get_at GetProofs.ex_state [100] 8 = Some [4; 1]
+      /\ seek_obs GetProofs.ex_state 8 [100] = ([OAt ([100], [4; 1])], true)).
+Proof. vm_compute. repeat split; reflexivity. Qed.
+
+Example C03_example_scan :
+  contents (all_entries GetProofs.ex_state) 12 = [([97], [1; 12]); ([98], [2; 6]); ([99], [3; 11])]
+  /\ d_run (d_new (iter_children GetProofs.ex_state) 12) [IFirst; INext; INext; INext]
+     = ([OAt ([97], [1; 12]); OAt ([98], [2; 6]); OAt ([99], [3; 11]); OInvalid], true)
+  /\ d_run (d_new (iter_children GetProofs.ex_state) 0) [IFirst] = ([OInvalid], true).
+Proof. vm_compute. repeat split; reflexivity. Qed.
+
+(** the run of C03 / C10 ([LsmProofs.ex_mid] --[ex_suffix]--> [LsmProofs.ex_end]): two flushes
+    into level 0 and two compactions under the live snapshot 5 *)
+Example C03_example_run_hyps :
+  lsm_wf_b LsmProofs.ex_mid = true
+  /\ In 5 (l_snaps LsmProofs.ex_mid)
+  /\ LsmProofs.run_adm LsmProofs.ex_mfs LsmProofs.ex_mid LsmProofs.ex_suffix
+  /\ ~ In (SRelease 5) LsmProofs.ex_suffix
+  /\ (LsmProofs.releases 5%N LsmProofs.ex_suffix
+      < count_occ N.eq_dec (l_snaps LsmProofs.ex_mid) 5%N)%nat
+  /\ LsmProofs.ex_end
+     = fold_left (lsm_step true true LsmProofs.ex_mfs) LsmProofs.ex_suffix LsmProofs.ex_mid
+  /\ length (iter_children LsmProofs.ex_mid) = 3%nat
+  /\ length (iter_children LsmProofs.ex_end) = 2%nat.
+Proof.
+  split; [vm_compute; reflexivity|]. split; [vm_compute; left; reflexivity|].
+  split; [apply LsmProofs.run_adm_b_sound; vm_compute; reflexivity|].
+  split; [intros H; repeat (destruct H as [H|H]; [discriminate|]); exact H|].
+  split; [vm_compute; repeat constructor|].
+  split; [reflexivity|]. split; vm_compute; reflexivity.
+Qed.
+
+(** the iterator at snapshot 5 before and after the run, on the 30-operation script of C04; the
+    iterator at the current sequence of the final state sees something else *)
+Example C03_example_iterator_stable :
+  d_run (d_new (iter_children LsmProofs.ex_end) 5) CursorProofs.ex_script
+  = d_run (d_new (iter_children LsmProofs.ex_mid) 5) CursorProofs.ex_script
+  /\ fst (d_run (d_new (iter_children LsmProofs.ex_end) 5) CursorProofs.ex_script)
+     = [OAt ([97], [4]); OAt ([99], [3]); OInvalid; OSkip; OSkip; OSkip;
+        OAt ([99], [3]); OAt ([97], [4]); OAt ([99], [3]); OInvalid;
+        OAt ([99], [3]); OAt ([97], [4]); OAt ([99], [3]); OAt ([99], [3]); OInvalid;
+        OSkip; OSkip; OSkip; OAt ([97], [4]); OInvalid; OAt ([99], [3]); OInvalid; OInvalid;
+        OAt ([99], [3]); OAt ([97], [4]); OInvalid; OSkip; OSkip; OSkip; OSkip]
+  /\ contents (all_entries LsmProofs.ex_mid) 5 = [([97], [4]); ([99], [3])]
+  /\ contents (all_entries LsmProofs.ex_end) 5 = [([97], [4]); ([99], [3])]
+  /\ l_seq LsmProofs.ex_end = 8
+  /\ contents (all_entries LsmProofs.ex_end) 8 = [([97], [8]); ([98], [6]); ([99], [7])]
+  /\ d_run (d_new (iter_children LsmProofs.ex_end) 8) [IFirst; INext; INext; INext]
+     = ([OAt ([97], [8]); OAt ([98], [6]); OAt ([99], [7]); OInvalid], true).
+Proof. vm_compute. repeat split; reflexivity. Qed.
+
+(** the theorem applies to this run, for every script *)
+Example C03_example_theorem_applies :
+  forall ops, d_run (d_new (iter_children LsmProofs.ex_end) 5) ops
+              = d_run (d_new (iter_children LsmProofs.ex_mid) 5) ops.
+Proof.
+  destruct C03_example_run_hyps as (W & Hq & A & Nr & _).
+  exact (C03_iterator_snapshot_stable LsmProofs.ex_mfs LsmProofs.ex_suffix LsmProofs.ex_mid 5
+           W Hq A Nr).
+Qed.
+
+(** * Sensitivity: the snapshot must stay live *)
+
+(** the same run after releasing snapshot 5 is admissible and keeps the invariant, but the
+    compactions drop the versions only snapshot 5 could see: an iterator at sequence 5 on the
+    final state is empty *)
+Example C03_release_needed :
+  let steps := SRelease 5 :: LsmProofs.ex_suffix in
+  let s' := fold_left (lsm_step true true LsmProofs.ex_mfs) steps LsmProofs.ex_mid in
+  LsmProofs.run_adm LsmProofs.ex_mfs LsmProofs.ex_mid steps
+  /\ lsm_wf_b s' = true
+  /\ contents (all_entries s') 5 = []
+  /\ d_run (d_new (iter_children s') 5) [IFirst] = ([OInvalid], true)
+  /\ d_run (d_new (iter_children LsmProofs.ex_mid) 5) [IFirst] = ([OAt ([97], [4])], true).
+Proof.
+  cbv zeta. split; [apply LsmProofs.run_adm_b_sound; vm_compute; reflexivity|].
+  vm_compute. repeat split; reflexivity.
+Qed.
